@@ -392,15 +392,31 @@ def hazards(t, N=None, ratio=16):
             else:
                 units(x, 1, acc)
             groups = {}
+            prods = []   # summands that are plain products (one monomial over a constant denominator): (sign, atoms)
             for sg, u in acc:
                 try:
                     r = N.rat(u).canon()   # (denominators scaled to leading coefficient 1: `P*2/2` lands in the group of `P`)
                 except Exception:
                     continue
+                if r.d.is_const() and len(r.n.t) == 1:
+                    (k1_, v1_), = r.n.t.items()
+                    if len(k1_) >= 2:
+                        prods.append((sg * (1 if v1_ > 0 else -1), {a_ for a_, e_ in k1_}))
                 g = groups.setdefault(r.d.key(), [Poly(), {}])
                 g[0] = g[0] + (r.n if sg > 0 else -r.n)
                 for k, v in r.n.t.items():
                     g[1][k] = g[1].get(k, 0) + abs(v)
+            # `a*s - b*s` with a non-constant s: the difference is taken AFTER both products were rounded — when a is close to b the
+            # result carries the rounding error of a*s, magnified (`x*scale - min*scale` for `(x - min)*scale`)
+            if h not in CMP:
+                for i_ in range(len(prods)):
+                    for j_ in range(i_ + 1, len(prods)):
+                        if prods[i_][0] != prods[j_][0] and (prods[i_][1] & prods[j_][1]) and prods[i_][1] != prods[j_][1]:
+                            out.append("a difference of two products sharing the factor %s: each is rounded before the subtraction" % _mono(((sorted(prods[i_][1] & prods[j_][1], key=repr)[0], 1),)))
+                            break
+                    else:
+                        continue
+                    break
             if h in CMP and len(x) == 3 and x[1] != x[2] and groups and all(net.is_zero() for net, _ in groups.values()) \
                     and not (is_const(x[1]) and is_const(x[2])):
                 # `x*3.0/3.0 == x`: both sides are the same rational function, so every matcher takes one fixed outcome; in binary64
